@@ -24,6 +24,8 @@ PROPERTY = {
 def check(run):
     from checks.main import reflection_bounded, splitoff_bounded
     reflection_bounded(run)
+    from checks.main import load_bounded
+    load_bounded(run)
     splitoff_bounded(run)
     from checks.main import crosscheck_bounded
     crosscheck_bounded(run, 'yatiml/constructors.py::Constructor.'
